@@ -25,10 +25,14 @@ type Profile struct {
 	UnknownNamePct int
 	BadNMPct  int
 	AllowMPoolEM bool
+	EvolvePct int // W1: % of runs whose rule set changes between calls (incremental builds, removals)
 }
 
 // G wraps the plan stream.
-type G struct{ S *simrt.Source }
+type G struct {
+	S    *simrt.Source
+	Hist []*MgmtOp // valid full-update texts used so far (some later operations resubmit one verbatim)
+}
 
 func (g *G) Intn(n int) int { return g.S.Intn(n) }
 func (g *G) Pct(p int) bool { return g.S.Pct(p) }
@@ -42,13 +46,13 @@ func (g *G) PickInt(xs []int) int { return xs[g.S.Intn(len(xs))] }
 
 func keyGroup(k int) int {
 	switch k {
-	case SecAsgKind, SecArg, SecForStep:
+	case SecAsgKind, SecArg, SecForStep, SecSetKind:
 		return 1
 	case SecIfKind, SecForKind, SecElif:
 		return 2
 	case SecIdx, SecIfIdx, SecMapIdx:
 		return 3
-	case SecNil, SecIfNil:
+	case SecNil, SecIfNil, SecSetNil:
 		return 4
 	case SecLocal, SecReader:
 		return 5
